@@ -1,16 +1,18 @@
 #!/bin/sh
-# usage: tools/regress_seeds.sh [lanes]   -- every kept seed (seeded/<PID>-*/patch.diff) against its property's quick tier on a scratch
-# worktree; one line per seed in seeded/_regress/summary.txt ("caught" = exit 1 with a VIOLATION line)
+# usage: tools/regress_seeds.sh [lanes] [egrep pattern on the seed name]   -- every kept seed (seeded/<PID>-*/patch.diff) against its
+# property's quick tier on a scratch worktree; one file per seed in seeded/_regress/, collected into seeded/_regress/summary.txt
+# ("caught" = exit 1 with a VIOLATION line)
 lanes=${1:-3}
-out=/verif/seeded/_regress; mkdir -p $out; : > $out/summary.txt
-ls -d /verif/seeded/C*/ | grep -v neutralised | while read d; do
+pat=${2:-.}
+out=/verif/seeded/_regress; mkdir -p $out
+ls -d /verif/seeded/C*/ | grep -v neutralised | grep -E "$pat" | while read d; do
   n=$(basename $d); pid=$(echo $n | cut -d- -f1); echo "$n $pid"
 done | xargs -P $lanes -L 1 sh -c '
   n=$0; pid=$1
-  res=$(MUT_JOBS=5 VERIF_MC_JOBS=5 /verif/tools/seedtest_copy.sh /verif/seeded/$n/patch.diff $pid quick 2>&1)
+  res=$(VERIF_MC_JOBS=5 /verif/tools/seedtest_copy.sh /verif/seeded/$n/patch.diff $pid quick 2>&1)
   rc=$(echo "$res" | grep -o "rc=[0-9]*" | head -1)
   if echo "$res" | grep -q "^VIOLATION" && [ "$rc" = "rc=1" ]; then v=caught; else v=MISSED; fi
-  echo "$n $rc $v" >> /verif/seeded/_regress/summary.txt
+  echo "$n $rc $v" > /verif/seeded/_regress/$n.res
 '
-sort $out/summary.txt -o $out/summary.txt
+cat $out/*.res | sort > $out/summary.txt
 echo "caught: $(grep -c caught $out/summary.txt)  missed: $(grep -c MISSED $out/summary.txt)"
